@@ -22,6 +22,15 @@ impl Elem for () {
     const WORLD: &'static str = "slices_zst";
     fn make(_: usize) -> Self {}
 }
+/// 3 bytes, alignment 1: a size that is not a power of two
+#[derive(Copy, Clone, PartialEq, Debug)]
+pub struct Odd([u8; 3]);
+impl Elem for Odd {
+    const WORLD: &'static str = "slices_odd";
+    fn make(i: usize) -> Self {
+        Odd([i as u8, (i >> 8) as u8, 0xA5])
+    }
+}
 #[derive(Copy, Clone, PartialEq, Debug)]
 pub struct Big {
     a: u64,
@@ -213,7 +222,13 @@ impl<T: Elem> Fam for SliceFam<T> {
 
     fn gen_setup(rng: &mut Rng, tier: Tier, _prop: &str) -> SSetup {
         let maxlen = if tier == Tier::Thorough { 40 } else { 12 };
-        let len = if rng.chance(1, 8) { rng.range(0, 2) } else { rng.range(0, maxlen) };
+        let len = match rng.below(32) {
+            0..=3 => rng.range(0, 2),
+            // occasionally long slices (thresholds such as 32/64/128 elements)
+            4 => rng.range(30, 70),
+            5 => *rng.pick(&[31usize, 32, 33, 63, 64, 65, 127, 128, 129]),
+            _ => rng.range(0, maxlen),
+        };
         let kind = *rng.pick(&KINDS);
         let size = if kind == SKind::ArrayChunks { rng.range(1, 4) } else { rng.range(1, len + 2) };
         SSetup { len, kind, size }
